@@ -539,7 +539,7 @@ fn c01_pow_b0() {
     pow_check(0);
 }
 
-// @props C01 C06
+// @props C01 C06:thorough
 // @fns KNumber::pow (I64 ^ I64 arm)
 // @bound concrete base 1 (closed form for b-fold wrapping multiplication), every exponent in [0, 2^63); negative exponents: result kind only
 // @timeout 900
@@ -549,7 +549,7 @@ fn c01_pow_b1() {
     pow_check(1);
 }
 
-// @props C01 C06
+// @props C01 C06:thorough
 // @fns KNumber::pow (I64 ^ I64 arm)
 // @bound concrete base -1 (closed form for b-fold wrapping multiplication), every exponent in [0, 2^63); negative exponents: result kind only
 // @timeout 900
@@ -569,7 +569,7 @@ fn c01_pow_b2() {
     pow_check(2);
 }
 
-// @props C01 C06
+// @props C01 C06:thorough
 // @fns KNumber::pow (I64 ^ I64 arm)
 // @bound concrete base -2 (closed form for b-fold wrapping multiplication), every exponent in [0, 2^63); negative exponents: result kind only
 // @timeout 900
